@@ -155,9 +155,19 @@ TEXT['C09'] = dict(
     note=BOUNDED_NOTE + 'Found and fixed two genuine defects of BSplines._build_integrals (fix: fbde878, fb94ce5).',
     technique='bounded run-time checking against exact spline antiderivatives')
 
+TEXT['C13'] = dict(
+    category='proof',
+    text='Every method of ParallelGradient is verified per stencil size (orders 2-6; quick: 2, 3, 6): getCoeffsFirstDeriv (shifts, '
+         'centred for even order, moment conditions of the first-derivative combination), _getThetaVals (theta along the field line for '
+         'every z via the wrap (k+l) mod nz), the constructor (b_z table built from the radii of the OWN global block, theta table for '
+         'all radii, dz) and parallel_gradient: der[z,q] = b_z(r_i)/dz * sum_j c_j S_{(z+s_j) mod nz}(thetaVals[i,(z+s_j) mod nz,j,q]) '
+         'through the three index regimes (incl. numpy negative-index wrap for odd orders), for all grid sizes above the stencil.',
+    note=PROOF_NOTE + 'The spline interpolator and numpy.linalg.solve are used through assumed contracts. Convergence order: bounded tier only.',
+    technique='loop invariants with indicator sums over source rows, contract-level case-split hints, symbolic-divisor modulo facts, z3')
+
 NOT_APPLICABLE = {
     'C19': 'compares compiled pyccel artefacts with their Python source: translation validation; no deductive verifier for the '
            'generated Fortran/C is installed (DESIGN.md, C19)',
 }
-for _p in ['C13']:
+for _p in []:
     NOT_APPLICABLE[_p] = 'check not built yet in this session (planned, see DESIGN.md); not claimed until its contracts discharge'
